@@ -140,6 +140,18 @@ AlphaAfterAccept ==
         /\ \E i \in DOMAIN buf : buf[i].id = n
         /\ \A i \in DOMAIN buf : IF kind = "sliding" THEN buf[i].ts + w >= now /\ buf[i].ts <= now
                                  ELSE AWinStart <= buf[i].ts /\ buf[i].ts < AWinStart + w
+(* structure of the retained state (growth round 4): the window list is strictly ordered by start, never longer than the    *)
+(* retention cap, no window is empty or over its per-window cap; the sliding / alpha buffer never exceeds its cap and ids   *)
+(* are retained in arrival order                                                                                             *)
+RetentionShape ==
+    /\ m = "tumbling" => /\ Len(wins) <= cap
+                         /\ \A i, j \in DOMAIN wins : i < j => wins[i].start < wins[j].start
+                         /\ \A i \in DOMAIN wins : Len(wins[i].mem) >= 1 /\ Len(wins[i].mem) <= MaxEv
+    /\ m \in {"sliding", "alpha"} => /\ Len(buf) <= cap
+                                     /\ \A i, j \in DOMAIN buf : i < j => buf[i].id < buf[j].id
+    /\ m = "batch" => /\ \A i, j \in DOMAIN wins : i < j => wins[i].start < wins[j].start
+                      /\ \A i \in DOMAIN wins : /\ Len(wins[i].mem) >= 1 /\ Len(wins[i].mem) <= cap
+                                                 /\ \A a, b \in DOMAIN wins[i].mem : a < b => wins[i].mem[a].id < wins[i].mem[b].id
 Reach_LateSliding == ~(m = "sliding" /\ Len(buf) >= 2 /\ \E i \in DOMAIN buf : i < Len(buf) /\ buf[i].ts > buf[Len(buf)].ts + 1)
 Reach_AddThenEvicted == ~(m = "sliding" /\ last.op = "event" /\ \E i \in 1..n : i < n /\ ~\E j \in DOMAIN buf : buf[j].id = i)
 Reach_AlphaRollover == ~(m = "alpha" /\ kind = "tumbling" /\ last.op = "event" /\ last.acc /\ n >= 2 /\ Len(buf) = 1)
